@@ -68,7 +68,19 @@ impl PeerCache {
             // Just keep existing head.
             Ok(true)
         };
-        self.heads.retain(|h| retain_head(h).unwrap_or(false));
+        // A storage error while comparing says nothing about ancestry: keep the
+        // head, record nothing and report the error.
+        let mut error = None;
+        self.heads.retain(|h| match retain_head(h) {
+            Ok(keep) => keep,
+            Err(e) => {
+                error.get_or_insert(e);
+                true
+            }
+        });
+        if let Some(e) = error {
+            return Err(e);
+        }
         if add_command {
             // TODO(jdygert): Replace an old head when full?
             self.heads.push(new).ok();
